@@ -179,6 +179,12 @@ def sym_check(case):
 # --- sorters ----------------------------------------------------------------------
 def sorter_cases(tier, seed):
     rng = random.Random(seed + 2)
+    # powers of the tensor the expression is sorted by: one key entry per occurrence
+    yield {"terms": [[["V", ["i", "j", "a", "b"], 2], ["X", ["k"], 1]], [["V", ["i", "j", "a", "b"], 1], ["X", ["k"], 1]],
+                     [["f", ["j", "a"], 2], ["X", ["i", "i", "k"], 1]], [["f", ["j", "a"], 1], ["f", ["i", "b"], 1]]],
+           "coeffs": [1, 2, -1, 1], "targets": []}
+    yield {"terms": [[["V", ["i", "j", "a", "b"], 3]], [["f", ["i", "j"], 3], ["V", ["i", "k", "a", "b"], 1]]],
+           "coeffs": [1, 1], "targets": []}
     for _ in range(40 if tier == "quick" else 500):
         names = rng.sample(OCC, 3) + rng.sample(VIRT, 3)
         yield {"terms": [random_term(rng, names) for _ in range(rng.randint(1, 4))],
@@ -233,6 +239,8 @@ def sorter_check(case):
                              lambda t: tuple(sorted("".join(str(s) for s in d.idx) for d in t.deltas for _ in range(d.exponent))) or ("none",)),
         "by_tensor_block[V]": (lambda x: by_tensor_block(x, "V"),
                                lambda t: tuple(sorted(delta_block(o) for o in t.tensors if o.name == "V" for _ in range(o.exponent))) or ("none",)),
+        "by_tensor_block[f]": (lambda x: by_tensor_block(x, "f"),
+                               lambda t: tuple(sorted(delta_block(o) for o in t.tensors if o.name == "f" for _ in range(o.exponent))) or ("none",)),
         "by_tensor_target_block[X]": (lambda x: by_tensor_target_block(x, "X"), lambda t: target_key(t, "X", True)),
         "by_tensor_target_indices[X]": (lambda x: by_tensor_target_indices(x, "X"), lambda t: target_key(t, "X", False)),
     }
